@@ -35,7 +35,33 @@ def build_cases(ctx, n, gen_kwargs=None, nsub_choices=(1, 1, 2, 3), compressed=F
             'maxrep': maxrep, 'features': dict(g.features),
             'shared': comp if shared is None else shared,
         })
+        c = cases[-1]
+        segs = getattr(g, 'bitmap_segments', [])
+        if segs and nsub >= 2 and not c['shared'] and not comp and rng.random() < 0.7:
+            # uncompressed: every subset gets its OWN bitmaps (the bits of each definition permuted: same number of
+            # zero bits, so the template's marker / class-33 runs still fit), drawn from the case's seed
+            # (one forced string per subset, joined by '||': travels with the case record, so replays rebuild it)
+            c['forced'] = '||'.join(forced_variants(g.forced, segs, nsub, c['seed']))
+            c['features']['bitmaps-differ-between-subsets'] = 1
     return cases
+
+
+def forced_variants(forced, segs, nsub, seed):
+    import random
+    r = random.Random(seed ^ 0xB17B17)
+    out = []
+    for j in range(nsub):
+        f = {k: list(v) for k, v in forced.items()}
+        if j > 0:
+            bits, pos, new = f.get(31031, []), 0, []
+            for n in segs:
+                seg = bits[pos:pos + n]
+                r.shuffle(seg)
+                new += seg
+                pos += n
+            f[31031] = new + bits[pos:]
+        out.append(';'.join('%d=%s' % (k, '.'.join(str(x) for x in v)) for k, v in sorted(f.items())) or '-')
+    return out
 
 
 def attach_templates(cases):
@@ -53,13 +79,34 @@ def attach_templates(cases):
 
 def run_gen(cases):
     live = [c for c in cases if c.get('toks')]
-    lines = ['gen %d %d %s %d %d %s' % (c['seed'], c['maxrep'], c['forced'], 1 if c['shared'] else 0,
-                                        c['nsub'], c['toks']) for c in live]
+    lines, owner = [], []
+    for c in live:
+        if '||' in c['forced']:
+            for j, f in enumerate(c['forced'].split('||')):
+                lines.append('gen %d %d %s 0 1 %s' % ((c['seed'] + 7919 * j) % 2 ** 32 or 1, c['maxrep'], f, c['toks']))
+                owner.append(c)
+        else:
+            lines.append('gen %d %d %s %d %d %s' % (c['seed'], c['maxrep'], c['forced'], 1 if c['shared'] else 0,
+                                                    c['nsub'], c['toks']))
+            owner.append(c)
     outs = lib.run_model_sharded(lines)
-    for c, o in zip(live, outs):
+    parts = {}
+    for c, o in zip(owner, outs):
+        parts.setdefault(id(c), []).append(o)
+    for c in live:
+        os_ = parts[id(c)]
+        if len(os_) == 1 and '||' not in c['forced']:
+            o = os_[0]
+        elif all(x.startswith('ok ') for x in os_):
+            o = 'ok ' + '|'.join(x[3:] for x in os_)
+        else:
+            o = next(x for x in os_ if not x.startswith('ok '))
         c['gen'] = o
         if o.startswith('ok '):
-            toks = B.parse_model_subsets(o[3:])
+            if '||' in c['forced']:
+                toks = [B.parse_model_subsets(x[3:])[0] for x in os_]
+            else:
+                toks = B.parse_model_subsets(o[3:])
             c['val_toks'] = toks
             c['py_vals'] = [[B.model_value_to_python(x) for x in s] for s in toks]
     return cases
